@@ -21,11 +21,12 @@ TEXTS = [
     "tab\there\tfoo\n  indented foo\n",
     # clusters of many bytes before the matches (flags and skin tones, 8 bytes each; no ZWJ or combining marks, which Rust's \\w takes and the reference's does not)
     "🇩🇪🇫🇷🇮🇹 foo bar\nplain foo line\n",
+    "C:\\dir\\file x\\y foo\n",
     "👍🏽👍🏽👍🏽 foo 🇯🇵🇯🇵 bar foo\n🇺🇸 foo\n",
 ]
 # the regex subset shared with the reference: literals, ., classes, \d \w \s, + ?, alternation; none can match the empty string
 PATTERNS = ["foo", "bar", "a", "o", "ba.", "f.o", "[0-9]+", "\\d+", "\\w+", "[a-z]+", "b[ae]", "foo|bar", "two|four|six", "a+", "fo+", "Zeile",
-            "é", "日本", "テ", "\\s", "x?y", "zzz", "[A-Z]", "o o", "\\d\\d", "naï"]
+            "é", "日本", "テ", "\\s", "x?y", "zzz", "[A-Z]", "o o", "\\d\\d", "naï", "\\\\", "r\\\\"]
 
 
 def gen_chain(rng, text=""):
@@ -36,7 +37,8 @@ def gen_chain(rng, text=""):
         pat = rng.choice(PATTERNS)
     keys = []
     first = rng.choice(["/", "/", "?"])
-    keys.append(first + pat + "<CR>")
+    # one in seven starts with a selection open: the search is the same search
+    keys.append((rng.choice(["v", "V"]) if rng.random() < 0.15 else "") + first + pat + "<CR>")
     for _ in range(rng.randint(0, 5)):
         r = rng.random()
         cnt = rng.choice(["", "", "", "2", "3"])
@@ -46,7 +48,7 @@ def gen_chain(rng, text=""):
             keys.append(cnt + "N")
         elif r < 0.85:
             p2 = rng.choice(PATTERNS)
-            keys.append(rng.choice(["/", "?"]) + p2 + "<CR>")
+            keys.append((rng.choice(["v", "V"]) if rng.random() < 0.15 else "") + rng.choice(["/", "?"]) + p2 + "<CR>")
         else:
             keys.append(rng.choice(["w", "b", "$", "0", "j", "k", "l", "h", "G", "gg"]))
     return keys
@@ -116,14 +118,16 @@ def run(chk, binary):
             c = cmds[-1]
             mot = c["motion"]
             cnt = c.get("mcount") or 1
-            if mot.startswith("PatternSearchRev"):
-                kind, last_dir = 1, False
-                last_pat = k[1:-4]
-                dist["?"] += 1
+            ms = re.match(r"^[vV]?([/?])(.*)<CR>$", k, re.S)
+            if ms:
+                # the direction is the one that was typed, whatever the command says it did
+                back = ms.group(1) == "?"
+                kind, last_dir = (1, False) if back else (0, True)
+                last_pat = ms.group(2)
+                dist["?" if back else "/"] += 1
             elif mot.startswith("PatternSearch"):
-                kind, last_dir = 0, True
-                last_pat = k[1:-4]
-                dist["/"] += 1
+                prev = st
+                continue
             else:
                 same = mot.startswith("NextMatch")
                 fwd = (same == last_dir)
